@@ -490,7 +490,7 @@ def _process_worker(
             r = call_item()
         except BaseException as e:
             exc = _ExceptionWithTraceback(e)
-            result_queue.put(_ResultItem(call_item.work_id, exception=exc))
+            _sendback_result(result_queue, call_item.work_id, exception=exc)
         else:
             _sendback_result(result_queue, call_item.work_id, result=r)
             del r
